@@ -94,6 +94,9 @@ def cases(tier, seed):
                 out.append({"name": "attach/%s/%s/%s" % (">".join(layers), how, direction), "kind": "attach", "layers": layers,
                             "how": how, "direction": direction, "cap": 24 if tier == "quick" else None,
                             "gran": "instr" if (tier == "thorough" and len(layers) == 1) else "line"})
+                if direction == "attach-first" and len(layers) == 1:
+                    out.append({"name": "attach-observed/%s/%s/%s" % (">".join(layers), how, direction), "kind": "attach", "layers": layers,
+                                "how": how, "direction": direction, "cap": None, "observer": True})
     # both sides suspended: the side ending the work at i, the attaching consumer at j, the ending side released first
     for layers in ([[t] for t in SINGLE] + ([list(p) for p in itertools.product(SINGLE, SINGLE)] if tier == "thorough" else [])):
         for how in ("value", "exc", "inner_cancel"):
@@ -418,6 +421,11 @@ class AttachScenario(object):
         ctx.w = w
         ctx.cb_calls = []
         ctx.chained = None
+        if self.case.get("observer"):
+            # somebody had put a done-callback of their own on the future earlier - one that raises
+            def observer(_f):
+                raise UserErrorA("observer")
+            w.futs[0].add_done_callback(observer)
         instr.advance(D)
         return ctx
 
